@@ -3,6 +3,7 @@ import Adlt.Lc.Spec
 import Adlt.Lc.Listing
 import Adlt.Lc.Table
 import Adlt.Lc.Counts
+import Adlt.Lc.ResumeKey
 /-! # C07 — final lifecycle table consistent with delivered messages; the listing
 
 Listing part: theorems about the model of `get_sorted_lifecycles_as_vec` for every table.
@@ -97,7 +98,7 @@ theorem C07_listed_once (ms : List Msg) : Spec.C07listedOnce (observe (run ms)) 
   obtain ⟨_, _, _, t3⟩ := run_final ms
   simp only [Spec.C07listedOnce, observe, List.map_map, beq_iff_eq]
   have : (List.map ((fun x : TblObs => x.id) ∘ fun (x : Nat × Lc) =>
-      ({ id := x.1, ecu := x.2.ecu, n := x.2.nrMsgs, start := x.2.start, endT := x.2.endTime, resume := x.2.resume.isSome } : TblObs))
+      ({ id := x.1, ecu := x.2.ecu, n := x.2.nrMsgs, start := x.2.start, endT := x.2.endTime, resume := x.2.resume.isSome, key := x.2.resumeStart } : TblObs))
       (run ms).published) = keys (run ms).published := rfl
   rw [this, eraseDups_of_nodup _ t3]
   simp [keys]
@@ -119,7 +120,7 @@ theorem C07_live_are_listed (ms : List Msg) (lc : Lc) (hl : Live (run ms).ecuMap
     ∃ t ∈ (observe (run ms)).tbl, t.id = lc.id ∧ t.ecu = lc.ecu ∧ t.n = lc.nrMsgs := by
   obtain ⟨_, t1, _, _⟩ := run_final ms
   have := assocGet_mem _ _ _ (t1 lc hl)
-  refine ⟨{ id := lc.id, ecu := lc.ecu, n := lc.nrMsgs, start := lc.start, endT := lc.endTime, resume := lc.resume.isSome }, ?_, rfl, rfl, rfl⟩
+  refine ⟨{ id := lc.id, ecu := lc.ecu, n := lc.nrMsgs, start := lc.start, endT := lc.endTime, resume := lc.resume.isSome, key := lc.resumeStart }, ?_, rfl, rfl, rfl⟩
   simp only [observe, List.mem_map]
   exact ⟨(lc.id, lc), this, rfl⟩
 
@@ -187,6 +188,13 @@ theorem C07_ecu (ms : List Msg) : Spec.C07ecu (observe (run ms)) = true := by
     have := hi.map.uniq lc lc' (by rw [← hem]; exact hl) (by rw [← hem]; exact hl') (by rw [i1, i2, hid, h1])
     rw [e1, this, ← e2, h2]
   · exact .inl hid
+
+/-- **the listing `adlt remote` sends**: it is ordered by `resume_start_time`, and at the end of every stream a lifecycle that
+    resumes another one finds that one live, in its own ECU, with a strictly smaller key - along whole chains of resumes, however
+    the start estimates cross: a resumed lifecycle is never placed before the one it resumes -/
+theorem C07_remote_key_ordered (ms : List Msg) (b : Lc) (hb : Live (run ms).ecuMap b) (r : Resume) (hr : b.resume = some r) :
+    ∃ a, Live (run ms).ecuMap a ∧ a.id = r.id ∧ a.ecu = b.ecu ∧ a.resumeStart < b.resumeStart :=
+  resume_key_ordered ms b hb r hr
 
 /-- **C07, counts part, for every stream**: the executable statement that the driver evaluates on the implementation's output
     holds of the model's observation -/
